@@ -153,17 +153,16 @@ def dropConstantScenario (rows : List Row) : Except Err (List Row) :=
 def colsOf (rows : List Row) : List String := rows.foldl (fun acc r => addNew acc (Dict.keys r)) []
 
 /-- `triangle_to_wide_data_frame` (rows in triangle order, scenarios ascending) -/
-def toWideRows (t : List Cell) : Except Err Table := do
-  let mdNames := allMetadataNames t
-  let fieldNames := allFields t
-  let rows ← (← t.mapM fun c => cellWideRows c mdNames fieldNames).flatten |> dropConstantScenario
-  pure { cols := colsOf rows, rows := rows }
+def mkTable (rows : List Row) : Table := { cols := colsOf rows, rows := rows }
+
+def toWideRows (t : List Cell) : Except Err Table :=
+  (t.mapM fun c => cellWideRows c (allMetadataNames t) (allFields t)).bind fun blocks =>
+    (dropConstantScenario blocks.flatten).map mkTable
 
 /-- `triangle_to_long_data_frame` -/
-def toLongRows (t : List Cell) : Except Err Table := do
-  let mdNames := allMetadataNames t
-  let rows ← (← t.mapM fun c => cellLongRows c mdNames).flatten |> dropConstantScenario
-  pure { cols := colsOf rows, rows := rows }
+def toLongRows (t : List Cell) : Except Err Table :=
+  (t.mapM fun c => cellLongRows c (allMetadataNames t)).bind fun blocks =>
+    (dropConstantScenario blocks.flatten).map mkTable
 
 /-! ## Reading -/
 
